@@ -92,6 +92,8 @@ def mk_key(kfmt, k, c, nw):
         return Key(k.to_bytes(32, 'big'), network=nw, compressed=c)
     if kfmt == 'hdkey':
         return HDKey(k.to_bytes(32, 'big'), network=nw, compressed=c, witness_type='legacy')
+    if kfmt == 'hdkeydef':      # default witness type (only used to replay the recorded observation)
+        return HDKey(k.to_bytes(32, 'big'), network=nw, compressed=c)
     raise RuntimeError('kfmt')
 
 
@@ -128,6 +130,8 @@ def dispatch(t):
             kw = {} if nw == '-' else {'network': nw}
             if cls == 'hdkey':
                 key = HDKey(s, password=text(pwr), witness_type='legacy', **kw)
+            elif cls == 'hdkeydef':
+                key = HDKey(s, password=text(pwr), **kw)
             else:
                 key = Key(s, password=text(pwr), **kw)
             return 'OK %d %d' % (key.secret, 1 if key.compressed else 0)
